@@ -22,13 +22,15 @@ declaring frame has no other line than the declaration's."""
 from zngen import *
 
 
-# GENUINE DEFECT of the unchanged tree, found through these inputs (2026-09-24, mixed-line-end stream, VERIF_SEED=2): a syntax error
-# that follows an 输入 line with only a MULTI-LINE COMMENT in between is reported at the 输入 keyword, not at the offending token:
-#     如何算？⏎    输入N⏎    注：“甲⏎乙” ）⏎    输出 N        → Go: error 20 at line 2 caret 4 (the 输 of 输入); the stray ） is on line 4
-# (the same with /* 甲⏎乙 */ ）; correct when the comment is on one line, when a statement stands between 输入 and the comment, or when
-# the method has no 输入 line).  c18_lineends.plant_syntax plants its stray ） in front of TAGGED statements of method bodies: while this
-# switch is False the tagged call-site statement of the outer method (which has an 输入 line) is never the first statement after 输入.
-TAGGED_STATEMENT_DIRECTLY_AFTER_INPUT_LINE = False
+# Defect found through these inputs (2026-09-24, mixed-line-end stream, VERIF_SEED=2; KF-C18-syntax-error-after-input-line) and REPAIRED
+# by 07aabbd (ParseExecBlock leaves its input state with getInvalidSyntaxPeek; parser model: Variant.inputStateFix, theorem
+# Properties/C05 input_state_error_at_block_ending_token): a syntax error that follows an 输入 line with only a MULTI-LINE COMMENT in
+# between was reported at the 输入 line, not at the offending token:
+#     如何算？⏎    输入N⏎    注：“甲⏎乙” ）⏎    输出 N        → before: error 20 at line 2; the stray ） is on line 4 — now: line 4
+# c18_lineends.plant_syntax plants its stray ） in front of TAGGED statements of method bodies: with this switch True (since the repair)
+# the tagged call-site statement of the outer method (which has an 输入 line) may be the first statement after 输入.  Set it to False
+# to run against a tree without 07aabbd.
+TAGGED_STATEMENT_DIRECTLY_AFTER_INPUT_LINE = True
 
 
 def _c18():
